@@ -301,7 +301,7 @@ impl Monitor for C04 {
         "C04"
     }
     fn plan(&self, cfg: &Cfg) -> u64 {
-        (3 * 5 * ns(cfg).len() * 2) as u64 * cfg.tier.pick(8, 60)
+        (3 * 5 * ns(cfg).len() * 2) as u64 * cfg.tier.pick(8, 16)
     }
     fn trial(&self, cfg: &Cfg, idx: u64, out: &mut TrialOut) {
         let nl = ns(cfg);
